@@ -8,6 +8,9 @@ mod rng;
 mod util;
 mod eng_link;
 mod eng_transport;
+mod eng_outstation;
+mod mon_outstation;
+mod gen_outstation;
 
 use std::io::Write;
 
@@ -27,6 +30,7 @@ fn main() {
                 "link" => eng_link::gen(thorough, seed, &mut out),
                 "transport" => eng_transport::gen_transport(thorough, seed, &mut out),
                 "linkaddr" => eng_transport::gen_linkaddr(thorough, seed, &mut out),
+                "outstation" => gen_outstation::gen(thorough, seed, &mut out),
                 _ => {
                     eprintln!("unknown engine {engine}");
                     std::process::exit(2)
@@ -42,6 +46,7 @@ fn main() {
             match engine {
                 "link" => eng_link::run(&ops, &mut out, &mut mon),
                 "transport" | "linkaddr" => eng_transport::run(&ops, &mut out, &mut mon),
+                "outstation" => eng_outstation::run(&ops, &mut out, &mut mon),
                 _ => {
                     eprintln!("unknown engine {engine}");
                     std::process::exit(2)
